@@ -262,6 +262,14 @@ mut("kind_swap_phys_to_get", L, """        self.swap(index, self.size - 1);
         self.swap(index, last);
         self.pop_back()""", ["C04:KIND1", "C20:KIND1"])
 
+mut("dbg_sub_mod_tightened", L, """const fn sub_mod(x: usize, y: usize, m: usize) -> usize {
+    debug_assert!(m > 0);
+    debug_assert!(x <= m);
+    debug_assert!(y <= m);""", """const fn sub_mod(x: usize, y: usize, m: usize) -> usize {
+    debug_assert!(m > 0);
+    debug_assert!(x <= m);
+    debug_assert!(y < m);""", ["C11:DBGASSERT1"])
+
 def sh(cmd, cwd=None):
     e = dict(os.environ); e["CARGO_NET_OFFLINE"] = "true"; e["CARGO_TARGET_DIR"] = "/tmp/mm-target"
     p = subprocess.run(cmd, shell=True, cwd=cwd, env=e, capture_output=True, text=True)
